@@ -249,6 +249,7 @@ def specs(tier):
         deep = _specs("thorough")[:3]
         for d in deep:
             d.name += "-deep"
+            d.inits = d.inits[:2]  # the empty network and one populated network per class
         sp += deep
     return sp
 
